@@ -60,6 +60,23 @@ an earlier one was used, closed and garbage-collected): breadth-first over
 the interleavings of a reduced operation alphabet, a state being the tuple of
 the instances' map contents; every instance has its own reference model and
 no operation may change another instance's map.
+
+A third search enumerates life-cycle histories of program objects with
+hash-map variables: starting from one loaded instance, the alphabet {Python
+write, program write (test run), close(), load() again on the same program
+object (closed before or not), one more instance of the same class loaded} -
+thorough also program copies between variables, load(log_level=1), an
+instance of a second class built from the same declaration, three instances -
+breadth-first up to a depth bound, deduplicated on the state of the
+reference (per instance: program open or closed, the variables' cells).
+Every edge runs in a world of its own (a fresh simulated kernel / fresh
+descriptors of the real one): the shortest history leading to the state is
+executed literally on the real code, then the operation, then every instance
+is read from Python and (if its program is open) by a run of its program.
+Reference: every load() of an instance leaves its variables at their
+declared defaults and touches no other instance, close() changes nothing,
+writes are read back by the other side.  Some configurations run the same
+histories on the real kernel, which must give the same observations.
 """
 import contextlib
 import gc
@@ -105,7 +122,18 @@ RULE = ("configurations = hash-map variable sets (formats I i Q q B h and, "
         "operations of all instances alive, a state being the tuple of their "
         "map contents; every edge (state, operation) is executed on the real "
         "code and compared with the reference model of the instance acted "
-        "on, all other instances must stay as they were; an edge is "
+        "on, all other instances must stay as they were; plus life-cycle "
+        "histories of hash-map variable classes (1-4 variables, one to three "
+        "HashMaps, all plain formats x defaults): from one loaded instance, "
+        "operations {Python write, program write, close(), load() again on "
+        "the same object whether closed or not, one more instance of the "
+        "class loaded; thorough: program copy, load(log_level=1), an "
+        "instance of a second class, up to three instances} breadth-first "
+        "to depth 3-4, deduplicated on the reference state (per instance "
+        "open / closed and cells), every edge executed as a literal history "
+        "in a fresh kernel and every instance then read from both sides: "
+        "after each load() of an instance its variables hold the declared "
+        "defaults, nobody else's change; an edge is "
         "non-trivial when the operation was accepted by the library and had "
         "an observable result; distinct = distinct (configuration [, plan], "
         "state, [instance,] operation)")
@@ -1905,8 +1933,360 @@ def explore_multi(what, cfg, plan, depth, backend_cls, res, sink):
 
 
 # ====================================================================
+# life cycles: load, write, close, load again, further instances
+# ====================================================================
+# A history starts with one loaded instance of the program class and goes on
+# with operations of the alphabet
+#   ("pyset", i, j, v)      Python writes variable j of instance i
+#   ("progset", i, j, v)    a test run of instance i's program writes it
+#   ("progcopy", i, j, k)   a test run copies variable k to variable j
+#   ("close", i)            EBPF.close() (instance i's program is open)
+#   ("load", i)             EBPF.load() on the same program object, whether
+#   ("loadlog", i)          it was closed before or not; ... (log_level=1)
+#   ("new",)                one more instance of the same class, loaded
+#   ("newclass",)           an instance of a new class (same declaration)
+# Reference: an instance is (program open?, its variables' cells); load()
+# of an instance puts the declared defaults into its cells and into no
+# other instance's; close() changes no cell; writes as in hv_expected.  After
+# the last operation of a history every instance is read from Python and -
+# if its program is open - by a run of its program.
+LC_WRITES = ("pyset", "progset", "progcopy")
+
+
+def lc_ops(vars_, state, max_inst, wide):
+    """the operations possible in a (model) state.  Narrow alphabet: per
+    variable one value written by Python, another by the program, no
+    copies"""
+    out = []
+    n = len(vars_)
+    for i, (is_open, cells) in enumerate(state):
+        for j, (f, d) in enumerate(vars_):
+            vals = hv_values(f)[:2]
+            for v in (vals if wide else vals[:1]):
+                out.append(("pyset", i, j, v))
+            if not is_open:
+                continue
+            for v in (vals if wide else vals[1:]):
+                out.append(("progset", i, j, v & M64))
+            if wide:
+                for k in range(n):
+                    if k != j:
+                        out.append(("progcopy", i, j, k))
+        if is_open:
+            out.append(("close", i))
+        out.append(("load", i))
+        if wide:
+            out.append(("loadlog", i))
+    if len(state) < max_inst:
+        out.append(("new",))
+        if wide:
+            out.append(("newclass",))
+    return out
+
+
+def lc_expected(vars_, state, op):
+    """the reference -> (expected result, state)"""
+    defaults = tuple(d & M64 for f, d in vars_)
+    kind = op[0]
+    if kind in ("new", "newclass"):
+        return ("ok",), state + ((True, defaults),)
+    i = op[1]
+    is_open, cells = state[i]
+    if kind in ("load", "loadlog"):
+        r, new = ("ok",), (True, defaults)
+    elif kind == "close":
+        if not is_open:
+            raise core.Internal(f"C09: {op} in {state}")
+        r, new = ("ok",), (False, cells)
+    elif kind in LC_WRITES:
+        r, c2 = hv_expected(vars_, cells, (kind,) + tuple(op[2:]))
+        new = (is_open, c2)
+    else:
+        raise core.Internal(f"C09: unknown life-cycle operation {op}")
+    return r, state[:i] + (new,) + state[i + 1:]
+
+
+class LifeWorld:
+    """the instances of one history, on one backend of its own"""
+
+    def __init__(self, cfg, be, realfds):
+        self.cfg, self.be, self.realfds = cfg, be, realfds
+        self.cases = []
+
+    def start(self):
+        self.cases.append(HashVarCase(self.cfg, self.be))
+
+    def apply(self, op):
+        kind = op[0]
+        if kind in LC_WRITES:
+            return self.cases[op[1]].apply((kind,) + tuple(op[2:]))
+        try:
+            if kind == "new":
+                self.cases.append(HashVarCase(self.cfg, self.be,
+                                              sibling_of=self.cases[0]))
+            elif kind == "newclass":
+                self.cases.append(HashVarCase(self.cfg, self.be))
+            elif kind == "close":
+                c = self.cases[op[1]]
+                fd = c.e.file_descriptor
+                c.close()
+                if self.realfds is not None and fd in self.realfds:
+                    self.realfds.remove(fd)     # closed: not ours any more
+            elif kind in ("load", "loadlog"):
+                c = self.cases[op[1]]
+                if kind == "load":
+                    c.e.load()
+                else:
+                    c.e.load(log_level=1)
+                c.closed = False
+            else:
+                raise core.Internal(f"C09: unknown life-cycle operation {op}")
+        except Exception as ex:
+            if isinstance(ex, (simkernel.SimTrap, core.Internal)):
+                raise
+            return ("exc", type(ex).__name__)
+        return ("ok",)
+
+    def observe_all(self):
+        return [c.observe() for c in self.cases]
+
+
+@contextlib.contextmanager
+def life_world(cfg, backend_cls):
+    be = backend_cls()
+    try:
+        with be.context() as handle:
+            yield LifeWorld(cfg, be, handle if isinstance(handle, list)
+                            else None)
+    finally:
+        be.close()
+
+
+def lc_text(op):
+    kind = op[0]
+    if kind in ("new", "newclass"):
+        return {"new": "one more instance of the class loaded",
+                "newclass": "an instance of a new class loaded"}[kind]
+    who = f"instance {op[1]}"
+    if kind == "pyset":
+        return f"Python writes {op[3]} to v{op[2]} of {who}"
+    if kind == "progset":
+        return f"the program of {who} writes {op[3]:#x} to v{op[2]}"
+    if kind == "progcopy":
+        return f"the program of {who} copies v{op[3]} to v{op[2]}"
+    return {"close": f"close() of {who}", "load": f"load() of {who}",
+            "loadlog": f"load(log_level=1) of {who}"}[kind]
+
+
+def explore_lifecycle(cfg, depth, backend_cls, res, sink, max_inst=2,
+                      wide=False):
+    """breadth-first search over life-cycle histories, deduplicated on the
+    model state (per instance: program open?, cells).  Every edge (state,
+    operation) is executed in a world of its own: a fresh backend, the
+    shortest history that led to the state executed literally on the real
+    code, then the operation; then all instances are observed from both
+    sides and compared with the reference.  -> log (for the differential)"""
+    log = []
+    cj = dict(hv_cfgj(cfg), kind="lifecycle", instances=max_inst, wide=wide)
+    vars_ = cfg["vars"]
+    if any(has_prefix(f) for f, d in vars_) or cfg.get("dict"):
+        raise core.Internal(f"C09: life-cycle configuration {cfg}")
+    decl = [d for f, d in vars_]
+    st0 = ((True, tuple(d & M64 for f, d in vars_)),)
+
+    def judge(c2, nst, obs, after):
+        ok = True
+        if len(obs) != len(nst):
+            raise core.Internal(f"C09: {len(obs)} instances observed, "
+                                f"{len(nst)} in the model ({c2})")
+        for i, (o, (is_open, cells)) in enumerate(zip(obs, nst)):
+            if (o[1][0] == "closed") != (not is_open):
+                raise core.Internal(f"C09: instance {i} open/closed differs "
+                                    f"from the model ({c2})")
+            for what, exp, ob, kf in hv_check_observation(vars_, cells, o):
+                ok = False
+                if sink:
+                    sink(c2, exp, ob, "life-observe", kf=kf,
+                         note=f"instance {i}: {what} after {after} (declared "
+                         f"defaults {decl}; every load() of an instance "
+                         "puts them into its variables, and only there)")
+        return ok
+
+    with life_world(cfg, backend_cls) as w:
+        try:
+            w.start()
+        except Exception as ex:
+            if isinstance(ex, (simkernel.SimTrap, core.Internal)):
+                raise
+            log.append(("rejected", type(ex).__name__))
+            return log
+        obs = w.observe_all()
+    log.append(("obs0", obs))
+    if not judge(dict(cj, state=core.jsonable(st0), seq=[]), st0, obs,
+                 "the first load()"):
+        return log
+    seen = {st0: ()}
+    frontier = [st0]
+    for level in range(depth):
+        nxt = []
+        for st in frontier:
+            for op in lc_ops(vars_, st, max_inst, wide):
+                with life_world(cfg, backend_cls) as w:
+                    w.start()
+                    cur = st0
+                    for o in seen[st]:
+                        r = w.apply(o)
+                        er, cur = lc_expected(vars_, cur, o)
+                        if r != er:
+                            raise core.Internal(
+                                f"C09: the history {seen[st]} was accepted "
+                                f"before and now {o} gives {r} ({cfg})")
+                    r = w.apply(op)
+                    obs = w.observe_all() if r[0] != "trap" else None
+                    steps = getattr(w.be, "steps", 0)
+                er, nst = lc_expected(vars_, st, op)
+                log.append((st, op, r, obs))
+                hist = [list(o) for o in seen[st]]
+                c2 = dict(cj, state=core.jsonable(st), op=list(op), seq=hist)
+                after = "; ".join(["the first load()"] +
+                                  [lc_text(o) for o in seen[st] + (op,)])
+                if r != er:
+                    ok = False
+                    if sink:
+                        sink(c2, er, r, "life-op-result",
+                             note=f"result of the last step of: {after}")
+                else:
+                    ok = judge(c2, nst, obs, after)
+                if res is not None:
+                    res.count("transitions")
+                    res.count("life_transitions")
+                    res.count("vm_steps", steps)
+                    res.nontrivial.add(core.digest(
+                        [cj["vars"], cj.get("maps"), "life", max_inst, wide,
+                         core.jsonable(st), op]))
+                    res.outcomes.add(("life", op[0], r[0], ok,
+                                      len(st), st[op[1]][0]
+                                      if len(op) > 1 else None))
+                    if level == 2 and op[0] == "load" and not st[op[1]][0]:
+                        res.sample(dict(c2, result=list(r),
+                                        observed=core.jsonable(obs)), limit=2)
+                if ok and nst not in seen:
+                    seen[nst] = seen[st] + (op,)
+                    nxt.append(nst)
+        frontier = nxt
+    if res is not None:
+        res.count("states", len(seen))
+    return log
+
+
+def descriptor_selftest():
+    """what the life-cycle histories rely on in the kernels: a hash map that
+    was just created is empty, whatever the map that had the same descriptor
+    number before it held; a closed descriptor denotes nothing"""
+    import errno
+    import os
+    key, val = b"\x01", bytes(range(8))
+    sk = simkernel.SimKernel()
+    try:
+        fd = sk.u_create(1, 1, 8, 4)
+        sk.u_update(fd, key, val)
+        if sk.u_lookup(fd, key, 8) != val:
+            raise core.Internal("simulated kernel: entry not stored")
+        os.close(fd)
+        try:
+            sk.u_lookup(fd, key, 8)
+            raise core.Internal("simulated kernel: a closed map descriptor "
+                                "still denotes the map")
+        except OSError as ex:
+            if ex.errno != errno.EBADF:
+                raise core.Internal(f"simulated kernel: closed fd: {ex}")
+        fd2 = sk.u_create(1, 1, 8, 4)
+        try:
+            sk.u_lookup(fd2, key, 8)
+            raise core.Internal("simulated kernel: a new map is not empty")
+        except OSError as ex:
+            if ex.errno != errno.ENOENT:
+                raise core.Internal(f"simulated kernel: new map: {ex}")
+        recycled = fd2 == fd
+    finally:
+        sk.close_all()
+    if kern.available():
+        fd = kern.map_create(1, 1, 8, 4)
+        kern.map_update(fd, key, val)
+        if kern.map_lookup(fd, key, 8) != val:
+            raise core.Internal("real kernel: entry not stored")
+        os.close(fd)
+        fd2 = kern.map_create(1, 1, 8, 4)
+        try:
+            if kern.map_lookup(fd2, key, 8) is not None:
+                raise core.Internal("real kernel: a new map is not empty")
+        finally:
+            os.close(fd2)
+    return dict(descriptor_number_recycled=recycled)
+
+
+# ====================================================================
 # configurations
 # ====================================================================
+def lifecycle_configs(ctx):
+    """(hash-map variable configuration, instances at most, wide alphabet,
+    depth, also on the real kernel) of the life-cycle searches"""
+    H = HFMT
+    one = [[(f, d)] for f in H for d in DEFAULTS]
+    two = [[(H[i], DEFAULTS[i % 3 if H[i].islower() else i % 2]),
+            (H[(i + s) % 6], DEFAULTS[(i + 1) % 2])]
+           for i in range(6)
+           for s in ((1, 3) if not ctx.quick else (1 + i % 3,))]
+    three = [[(H[i], 5), (H[(i + 1) % 6], 0), (H[(i + 3) % 6], -1 if
+                                                H[(i + 3) % 6].islower() else 5)]
+             for i in (range(0, 6, 3) if ctx.quick else range(6))]
+    several = [dict(vars=[("i", -1), ("B", 5)], maps=(0, 1)),
+               dict(vars=[("Q", 5), ("h", -1), ("I", 0)], maps=(0, 1, 0)),
+               dict(vars=[("I", 3), ("h", -20), ("Q", 1000), ("I", 0)],
+                    maps=(0, 0, 1, 1))]
+    if not ctx.quick:
+        several += [dict(vars=[("q", -1), ("h", 5), ("B", 0)], maps=(0, 1, 2)),
+                    dict(vars=[("B", 5), ("q", 0)], maps=(0, 1))]
+    if ctx.seed:
+        two.append([(H[ctx.seed % 6], 5), (H[(ctx.seed + 4) % 6], 0)])
+        one.append([(H[(3 * ctx.seed) % 6], 100 + ctx.seed)])
+    out = []
+    if ctx.quick:
+        for i, v in enumerate(one):
+            out.append((dict(vars=v), 2, False, 4, i % 6 == 1))
+        for i, v in enumerate(two):
+            out.append((dict(vars=v), 2, False, 4, False))
+        for v in three:
+            out.append((dict(vars=v), 2, False, 3, False))
+        for c in several:
+            out.append((c, 2, False, 4 if len(c["vars"]) < 3 else 3, False))
+        # one more two-variable and one more two-map class, one level less
+        # deep, on both kernels
+        out.append((dict(vars=[("h", -1), ("I", 5)]), 2, False, 3, True))
+        out.append((dict(vars=[("q", 5), ("B", 0)], maps=(0, 1)), 2, False,
+                    3, True))
+        # three instances, the wide alphabet: one variable
+        out.append((dict(vars=[("q", -1)]), 3, True, 3, False))
+        out.append((dict(vars=[("B", 5)]), 3, False, 4, False))
+    else:
+        for i, v in enumerate(one):
+            out.append((dict(vars=v), 3, True, 4, i % 3 == 1))
+        for i, v in enumerate(two):
+            out.append((dict(vars=v), 2, True, 4, False))
+            out.append((dict(vars=v), 3, False, 4, False))
+        for v in three:
+            out.append((dict(vars=v), 2, True, 3, False))
+            out.append((dict(vars=v), 2, False, 4, False))
+        for c in several:
+            out.append((c, 2, True, (4, 4, 4, 3, 2)[len(c["vars"])], False))
+            out.append((c, 3, False, 4 if len(c["vars"]) < 4 else 3, False))
+        out.append((dict(vars=[("h", -1), ("I", 5)]), 2, False, 4, True))
+        out.append((dict(vars=[("i", 0), ("Q", 5)]), 2, True, 3, True))
+        out.append((dict(vars=[("q", 5), ("B", 0)], maps=(0, 1)), 2, False,
+                    4, True))
+    return out
+
+
 def hashvar_configs(ctx):
     out = []
     one = [(f, d) for f in HFMT for d in DEFAULTS]
@@ -2202,7 +2582,13 @@ def make_sink(res, cap=3):
 def work(item, res):
     kind, cfg, depth, differential = item
     sink = make_sink(res)
-    if kind == "multi":
+    if kind == "life":
+        lcfg, max_inst, wide = cfg
+
+        def fn(_, depth, backend_cls, res, sink):
+            return explore_lifecycle(lcfg, depth, backend_cls, res, sink,
+                                     max_inst, wide)
+    elif kind == "multi":
         what, mcfg, plan = cfg
 
         def fn(_, depth, backend_cls, res, sink):
@@ -2227,7 +2613,7 @@ def work(item, res):
 def compare_logs(cfg, kind, log, rlog, res):
     """the simulated and the real kernel must agree on every edge both
     explored (all edges, unless LRU eviction made the searches diverge)"""
-    if kind == "hv":
+    if kind in ("hv", "life"):
         if log != rlog:
             for a, b in zip(log, rlog):
                 if a != b:
@@ -2291,13 +2677,20 @@ def run(ctx):
         # process are none of the check's business)
         items.append(("multi", m, mdepth,
                       m[2] in ("same2", "diff2", "same3") and i % 2 == 0))
+    lc = lifecycle_configs(ctx)
+    for cfg, max_inst, wide, ldepth, differential in lc:
+        items.append(("life", (cfg, max_inst, wide), ldepth, differential))
+    dst = descriptor_selftest()
     res = core.pmap(ctx, work, items, chunk=1)
     res.cov["configurations_run"] = res.cov.pop("evaluations", 0)
     res.cov["evaluations"] = res.cov.get("transitions", 0)
     res.cov["configurations"] = dict(hashvars=len(hv), dicts=len(dc),
                                      dicts_with_ancestors=len(di),
                                      hashvars_several_maps=len(hm),
-                                     several_instances=len(mc_))
+                                     several_instances=len(mc_),
+                                     life_cycles=len(lc))
+    res.cov["bound_life_cycles"] = max(x[3] for x in lc)
+    res.cov["descriptor_selftest"] = dst
     res.cov["bound_completed"] = depth
     res.cov["bound_several_instances"] = mdepth
     res.cov["kernel_available"] = kern.available()
@@ -2366,6 +2759,19 @@ def run(ctx):
         "on it must leave the first Dict alone; the history that matters "
         "there (which class was instantiated first in the process) is "
         "fixed when the case is set up, fresh classes per configuration",
+        "life cycles: 'holds its declared default after loading' is read "
+        "as: after every EBPF.load() of a program object - the first one, "
+        "one after close(), one without close() in between - each of its "
+        "hash-map variables reads as its declared default from Python and "
+        "from the program, whatever Python or an earlier run wrote before; "
+        "load() and the writes of one instance are invisible to every other "
+        "instance (of the same class or of a class built from the same "
+        "declaration); close() changes no variable.  Equal reference states "
+        "(open / closed and cells per instance) are taken to have equal "
+        "futures; every edge is reached by the literal shortest history in "
+        "a fresh kernel, nothing is written into maps behind the library's "
+        "back.  Plain formats only; pinned maps (load_maps=) are not "
+        "enumerated",
         "states are re-established by writing the kernel map directly "
         "(TheDict and the descriptors keep no state of their own besides "
         "the map descriptor), so equal map contents have equal futures"]
@@ -2377,7 +2783,14 @@ def replay(ctx, rep):
     sink = make_sink(res, cap=10 ** 9)
     c = rep["case"]
     depth = 3 if ctx.quick else 4
-    if c["kind"] == "multi":
+    if c["kind"] == "lifecycle":
+        cfg = hv_cfg_of(c)
+        ldepth = max([x[3] for x in lifecycle_configs(ctx)
+                      if x[:3] == (cfg, c["instances"], c["wide"])] or
+                     [len(c.get("seq") or []) + 1])
+        log = explore_lifecycle(cfg, ldepth, SimBackend, res, sink,
+                                c["instances"], c["wide"])
+    elif c["kind"] == "multi":
         if c["what"] == "dict":
             cfg = dict(key=tuple(c["key"]), value=tuple(c["value"]),
                        size=c["size"], lru=c["lru"])
